@@ -60,11 +60,13 @@ def confirm(seed):
         pk = touched_pkgs(os.path.join(seed, "patch.diff"))
         rc, out = sh("go test -count=1 %s" % " ".join(pk), cwd=wt, timeout=2400)
         res["existing_tests_pass"] = rc == 0
+        failing_with = sorted(set(re.findall(r"^--- FAIL: (\S+)", out, re.M)))
         if rc:
             res["existing_tests_tail"] = out[-800:]
+            res["existing_tests_failing_with_change"] = failing_with
         # demonstration with the change
         demos = [f for f in glob.glob(os.path.join(seed, "*")) if f.endswith("_test.go") or f.endswith(".go")]
-        demo_cmd = meta.get("demo", "")
+        demo_cmd = re.split(r"\s{2,}\(", meta.get("demo", ""))[0].strip()   # drop a trailing "(with ... copied to ...)" note
         for f in demos:
             # place the demo next to the first touched package unless the command names a path
             m = re.search(r"\./(pkg/\S+?)(/\.\.\.)?(\s|$)", demo_cmd)
@@ -74,6 +76,19 @@ def confirm(seed):
         rc1, out1 = sh(demo_cmd, cwd=wt, timeout=1200)
         res["demo_fails_with_change"] = rc1 != 0
         sh("git apply -R %s" % os.path.join(os.path.abspath(seed), "patch.diff"), cwd=wt)
+        if not res["existing_tests_pass"]:
+            # do the same tests fail on the clean checkout too (tests that cannot pass in this sandbox, flaky ones)?
+            for f in demos:
+                for root, _, files in os.walk(wt):
+                    if os.path.basename(f) in files:
+                        os.rename(os.path.join(root, os.path.basename(f)), os.path.join(root, os.path.basename(f) + ".off"))
+            rc0, out0 = sh("go test -count=1 %s" % " ".join(pk), cwd=wt, timeout=2400)
+            res["existing_tests_failing_on_clean_head"] = sorted(set(re.findall(r"^--- FAIL: (\S+)", out0, re.M)))
+            res["existing_tests_pass_modulo_clean_head_failures"] = set(failing_with) <= set(res["existing_tests_failing_on_clean_head"])
+            for root, _, files in os.walk(wt):
+                for fn in files:
+                    if fn.endswith("_test.go.off"):
+                        os.rename(os.path.join(root, fn), os.path.join(root, fn[:-4]))
         rc2, out2 = sh(demo_cmd, cwd=wt, timeout=1200)
         res["demo_passes_without_change"] = rc2 == 0
         if rc2:
